@@ -269,6 +269,20 @@ def gallina_op(machine, op, arg, pick):
             "fors": "Sh.OTimedS (Dur %d)" % (arg or 0), "untils": "Sh.OTimedS (Abs %d)" % (arg or 0)}[op]
 
 
+def compact_op(machine, op, arg, pick):
+    """(code, a, b) of FiberSyncObs.{mx,rc,sh}_dec"""
+    p = pick if pick is not None else 0
+    a = arg or 0
+    if machine == "Mx":
+        return {"lockx": (1, 0, 0), "tryx": (2, 0, 0), "unlockx": (3, p, 0), "forx": (4, a, 0), "untilx": (5, a, 0),
+                "cvwait": (6, 0, p), "cvfor": (7, a, p), "cvuntil": (8, a, p), "notify1": (9, p, 0),
+                "notifyall": (10, 0, 0), "sleep": (11, a, 0)}[op]
+    if machine == "Rc":
+        return {"lockx": (1, 0, 0), "tryx": (2, 0, 0), "unlockx": (3, p, 0), "forx": (4, a, 0), "untilx": (5, a, 0)}[op]
+    return {"lockx": (1, 0, 0), "tryx": (2, 0, 0), "unlockx": (3, p, 0), "forx": (4, a, 0), "untilx": (5, a, 0),
+            "locks": (11, 0, 0), "trys": (12, 0, 0), "unlocks": (13, p, 0), "fors": (14, a, 0), "untils": (15, a, 0)}[op]
+
+
 def map_trace(scenario, trace):
     """Implementation trace -> dict(machine=, events=[gallina], results=[(kind,f,res,t)], jn=[gallina], joins=[...],
     tl=[gallina], reads=[...]).  Purely syntactic: ">f@t" is ERun f t; an operation announced by "c" starts at
@@ -277,6 +291,7 @@ def map_trace(scenario, trace):
     cls = scenario.split("/")[0]
     machine = MACHINE.get(cls)
     evs, results, jn, joins, tl, reads = [], [], [], [], [], []
+    cjn, ctl = [], []
     pending = {}      # fiber -> (op, arg) announced, not started
     yielded = set()
     last_op = {}      # fiber -> index in evs of its last started operation (to attach picks)
@@ -300,6 +315,7 @@ def map_trace(scenario, trace):
             evs.append(("run", f, now))
             if f in in_join:
                 jn.append("Jn.ERun %d" % f)
+                cjn.append("O %d 4 0 0" % f)
             if f in yielded:
                 yielded.discard(f)
                 start(f)
@@ -321,11 +337,14 @@ def map_trace(scenario, trace):
                 arg = int(w[2]) if len(w) > 2 else None
                 if op == "spawn":
                     jn.append("Jn.ESpawn %d %d" % (f, arg))
+                    cjn.append("O %d 1 %d 0" % (f, arg))
                 elif op == "join":
                     jn.append("Jn.EJoin %d %d" % (f, arg))
+                    cjn.append("O %d 3 %d 0" % (f, arg))
                     in_join[f] = arg
                 elif op == "detach":
                     jn.append("Jn.EDetach %d %d" % (f, arg))
+                    cjn.append("O %d 5 %d 0" % (f, arg))
                 elif op == "yield":
                     pass
                 else:
@@ -346,23 +365,29 @@ def map_trace(scenario, trace):
                     results.append((k, f, int(w[2]), int(w[3]) if k in TIMED_RES else 0))
             elif w[0] == "exit":
                 jn.append("Jn.EExit %d" % f)
+                cjn.append("O %d 2 0 0" % f)
             elif w[0] in ("seta", "setb"):
                 tl.append("Tl.ESet %d %d %d" % (f, 0 if w[0] == "seta" else 1, int(w[1])))
+                ctl.append("O %d 1 %d %d" % (f, 0 if w[0] == "seta" else 1, int(w[1])))
             elif w[0] in ("geta", "getb"):
                 tl.append("Tl.EGet %d %d" % (f, 0 if w[0] == "geta" else 1))
+                ctl.append("O %d 2 %d 0" % (f, 0 if w[0] == "geta" else 1))
                 reads.append((f, 0 if w[0] == "geta" else 1, int(w[1])))
             else:
                 raise ValueError("unknown harness event " + tok)
         elif m.group(10):
             pass  # the runtime's own "<fiber>:<op>@<loc>=<value>" record of a completed wrapped operation
-    out = []
+    out, cout = [], []
     mach = machine or "Mx"
     for e in evs:
         if e[0] == "run":
             out.append("%s.ERun %d %d" % (mach, e[1], e[2]))
+            cout.append("R %d %d" % (e[1], e[2]))
         else:
             out.append("%s.EOp %d (%s)" % (mach, e[0], gallina_op(mach, e[1], e[2], e[3])))
-    return dict(machine=mach, events=out, results=results, jn=jn, joins=joins, tl=tl, reads=reads)
+            cout.append("O %d %d %d %d" % ((e[0],) + compact_op(mach, e[1], e[2], e[3])))
+    return dict(machine=mach, events=out, cevents=cout, results=results, jn=jn, cjn=cjn, joins=joins, tl=tl, ctl=ctl,
+                reads=reads)
 
 
 def nontrivial(trace):
@@ -389,10 +414,11 @@ def nontrivial(trace):
     return False
 
 
-# ------------------------------------------------------------------------------------------------ main
+# ------------------------------------------------------------------------------------------------ workers
 FAIL_KEY = [("deadlock", "deadlock"), ("incompatible holders", "incompatible"), ("unjustified failure", "unjustified"),
             ("assert it == _sleep_list.end()", "sleepmap"), ("assert r &&", "twice"), ("timed wait ended early", "early"),
             ("sleep_for", "early"), ("join returned before", "join"), ("thread-local", "tls"), ("assert", "assert")]
+ORDER = ["incompatible", "deadlock", "unjustified", "early", "join", "tls", "twice", "sleepmap", "assert", "other"]
 
 
 def fail_key(scenario, fail):
@@ -403,29 +429,181 @@ def fail_key(scenario, fail):
     return "%s:other" % cls
 
 
-def run_set(exe, mode, extra, names, tag):
-    """run the harness over the named scenarios, in parallel slices"""
-    n = max(1, min(vlib.NPROC, len(names) // 4 or 1))
+class Trie:
+    """prefix tree of compact event sequences; children and leaves keep insertion order"""
+
+    def __init__(self):
+        self.root = {}
+        self.leaves = []   # leaf payloads in the order run_trie reports them (computed by emit)
+        self.count = 0
+
+    def add(self, events, payload):
+        d = self.root
+        for e in events:
+            nxt = d.get(e)
+            if nxt is None:
+                nxt = d[e] = {}
+            d = nxt
+        d.setdefault(None, []).append(payload)
+        self.count += 1
+
+    def emit(self):
+        """-> Gallina text of the trie; fills self.leaves (one entry = list of payloads sharing that leaf)"""
+        self.leaves = []
+        out = []
+        # iterative pre-order emission: Alt a (Alt b c), Seq e t, Leaf
+        def node(d):
+            alts = []
+            if None in d:
+                alts.append(None)
+            alts += [k for k in d if k is not None]
+            return alts
+        def rec(d):
+            alts = node(d)
+            for i, k in enumerate(alts):
+                last = i == len(alts) - 1
+                if not last:
+                    out.append("(Alt ")
+                if k is None:
+                    self.leaves.append(d[None])
+                    out.append("Leaf")
+                else:
+                    out.append("(Seq (%s) " % k)
+                    rec(d[k])
+                    out.append(")")
+                if not last:
+                    out.append(" ")
+            out.append(")" * (len(alts) - 1))
+        rec(self.root)
+        return "".join(out)
+
+
+HEADER = ("From Coq Require Import NArith List. Import ListNotations.\n"
+          "From YV Require Import model.FiberSync model.FiberSyncObs gen.FiberSyncSource.\n"
+          "Set Printing Depth 100000000.\nSet Printing Width 1000000.\n")
+RUNNER = {"Mx": "mx_trie source_variant", "Rc": "rc_trie source_variant", "Sh": "sh_trie source_variant",
+          "Jn": "jn_trie", "Tl": "tl_trie"}
+CHUNK = 3000
+
+
+def check_lock(r, t, mt):
+    ubf, two, n = r[1], r[2], r[3]
+    got = [tuple(r[4 + 4 * i: 8 + 4 * i]) for i in range(n)]
+    if got != mt["results"]:
+        return "model predicts results %s, implementation showed %s" % (got, mt["results"])
+    impl_ub = "assert it == _sleep_list.end()" in t["fail"]
+    if bool(ubf) != impl_ub and not (ubf and t["fail"]):
+        # only the first failure of an execution is reported, so a model-side lookup failure may hide behind another one
+        return "model says the sleep-map lookup failed=%d, implementation assert=%s" % (ubf, impl_ub)
+    if "incompatible holders" in t["fail"] and not two:
+        return "implementation had incompatible holders, the model never has"
+    return None
+
+
+def check_join(r, t, mt):
+    got = [tuple(r[2 + 3 * i: 5 + 3 * i]) for i in range(r[1])]
+    return None if got == mt["joins"] else "model predicts joins %s, implementation showed %s" % (got, mt["joins"])
+
+
+def check_tls(r, t, mt):
+    got = [tuple(r[2 + 3 * i: 5 + 3 * i]) for i in range(r[1])]
+    return None if got == mt["reads"] else "model predicts thread-local reads %s, implementation showed %s" % (got, mt["reads"])
+
+
+def work(args):
+    """one slice of scenarios: explore on the implementation, map, replay in Coq, compare.  Runs in its own process."""
+    import sys
+    sys.setrecursionlimit(100000)
+    exe, mode, extra, names, tag, do_corr = args
+    tmp = tempfile.mkdtemp(prefix="c18.%s." % tag, dir="/var/tmp")
+    p = os.path.join(tmp, "list.txt")
+    open(p, "w").write("\n".join(names) + "\n")
+    rows, out, err, rc = runner.run_harness(exe, ["--mode", mode, "--param", "list=" + p] + extra, timeout=1700)
+    os.remove(p)
+    os.rmdir(tmp)
+    res = dict(heads=[r for r in rows if "mode" in r], crashes=[], fails=[], bad=[], n_traces=0, n_valid=0,
+               n_nontrivial=0, samples=[], replays=0, vocab=[])
+    if rc != 0:
+        res["crashes"].append((rc, (err or out)[-800:]))
+    traces = [r for r in rows if "trace" in r]
+    res["n_traces"] = len(traces)
+    best = {}
+    for t in traces:
+        if t["fail"]:
+            k = fail_key(t["scenario"], t["fail"])
+            if k not in best or len(t["choices"]) < len(best[k]["choices"]):
+                best[k] = t
+    res["fails"] = list(best.values())
+    res["failing_executions"] = sum(t["count"] for t in traces if t["fail"])
+    if not do_corr:
+        return res
+    tries = {}
+    tbad = set()
+    for ti, t in enumerate(traces):
+        try:
+            mt = map_trace(t["scenario"], t["trace"])
+        except (ValueError, KeyError) as e:
+            res["vocab"].append("%s in %s: %s" % (e, t["scenario"], t["trace"]))
+            tbad.add(ti)
+            continue
+        cls = t["scenario"].split("/")[0]
+        if cls in MACHINE and mt["cevents"]:
+            tries.setdefault(mt["machine"], Trie()).add(mt["cevents"], (ti, mt, check_lock))
+        if mt["cjn"]:
+            tries.setdefault("Jn", Trie()).add(mt["cjn"], (ti, mt, check_join))
+        if mt["ctl"]:
+            tries.setdefault("Tl", Trie()).add(mt["ctl"], (ti, mt, check_tls))
+    body = [HEADER]
+    plan = []
+    for mach, tr in tries.items():
+        text = tr.emit()
+        body.append("Eval vm_compute in (%s (%s))." % (RUNNER[mach], text))
+        plan.append((mach, tr))
+    ok, cout = vlib.coqc_eval("\n".join(body) + "\n", "c18_%d_%s" % (os.getpid(), tag), timeout=1700)
+    blocks = re.findall(r"=\s*(\[.*?\])\s*:\s*list \(list nat\)", cout.replace("\n", " "))
+    if not ok or len(blocks) != len(plan):
+        res["bad"].append(dict(scenario=names[0], kind="replay", why="Coq evaluation failed: " + cout[-1500:], trace="", choices=""))
+        return res
+    for (mach, tr), blk in zip(plan, blocks):
+        outs = [[int(x) for x in re.findall(r"\d+", lst)] for lst in re.findall(r"\[([\d; ]*)\]", blk)]
+        if len(outs) != len(tr.leaves):
+            res["bad"].append(dict(scenario=names[0], kind=mach, why="Coq returned %d outcomes for %d leaves" % (len(outs), len(tr.leaves)), trace="", choices=""))
+            continue
+        res["replays"] += len(outs)
+        for r, payloads in zip(outs, tr.leaves):
+            for ti, mt, chk in payloads:
+                t = traces[ti]
+                if r[0] == 0:
+                    src = mt["events"] if mach in ("Mx", "Rc", "Sh") else mt["jn"] if mach == "Jn" else mt["tl"]
+                    why = "model rejects event #%d: %s" % (r[1], src[r[1]] if r[1] < len(src) else "?")
+                else:
+                    why = chk(r, t, mt)
+                if why:
+                    tbad.add(ti)
+                    if len(res["bad"]) < 6:
+                        res["bad"].append(dict(scenario=t["scenario"], kind=mach, why=why, trace=t["trace"], choices=t["choices"]))
+    res["n_bad"] = len(tbad)
+    for ti, t in enumerate(traces):
+        if ti in tbad:
+            continue
+        res["n_valid"] += 1
+        if nontrivial(t["trace"]):
+            res["n_nontrivial"] += 1
+            if len(res["samples"]) < 2:
+                res["samples"].append(dict(scenario=t["scenario"], trace=t["trace"], choices=t["choices"],
+                                           executions=t["count"], fail=t["fail"],
+                                           model_events="; ".join(map_trace(t["scenario"], t["trace"])["events"])))
+    return res
+
+
+def run_set(exe, mode, extra, names, tag, do_corr=True):
+    n = max(1, min(vlib.NPROC, (len(names) + 3) // 4))
     slices = [names[i::n] for i in range(n)]
-    tmpdir = tempfile.mkdtemp(prefix="c18.%s." % tag, dir="/var/tmp")
-
-    def one(i):
-        p = os.path.join(tmpdir, "list%d.txt" % i)
-        open(p, "w").write("\n".join(slices[i]) + "\n")
-        return runner.run_harness(exe, ["--mode", mode, "--param", "list=" + p] + extra, timeout=1500)
-
-    rows, crashes = [], []
-    with concurrent.futures.ThreadPoolExecutor(max_workers=n) as ex:
-        for r, out, err, rc in ex.map(one, range(n)):
-            rows += r
-            if rc != 0:
-                crashes.append((rc, (err or out)[-800:]))
-    for f in os.listdir(tmpdir):
-        os.remove(os.path.join(tmpdir, f))
-    os.rmdir(tmpdir)
-    return rows, crashes
+    with concurrent.futures.ProcessPoolExecutor(max_workers=n) as ex:
+        return list(ex.map(work, [(exe, mode, extra, sl, "%s%d" % (tag, i), do_corr) for i, sl in enumerate(slices)]))
 
 
+# ------------------------------------------------------------------------------------------------ main
 def main(ck):
     ck.assumptions = [
         "FIBER backend, explorer-owned scheduling: a fiber switch happens only where a fiber blocks, exits, or yields in front of a wrapped operation; all random draws (extra sleep time, SharedMutex::unlock's coin) return 0",
@@ -436,14 +614,14 @@ def main(ck):
     ck.cov["trusted_base"] = [
         "Coq 8.16.1 kernel + vm_compute (trace replay, _refuted witnesses, Examples)",
         "Print Assumptions of every theorem in Properties_C18.v / Properties_C18_Source.v: Closed under the global context",
-        "checks/c18.py: variant_of_source (text patterns for nine places + literal check of the unparameterised functions) and the syntactic trace-to-event mapping",
+        "checks/c18.py: variant_of_source (text patterns for nine places + literal check of the unparameterised functions) and the syntactic trace-to-event mapping; FiberSyncObs.v decoders",
         "harness/h_c18.cpp oracle and its marker hooks (chained onto the YACLIB_VERIF choose/resume hooks)",
         "YACLIB_VERIF hooks in the fault layer; explorer runtime harness/verif_rt.hpp",
     ]
     # ---- translator
     try:
         variant = variant_of_source(vlib.REPO)
-    except Unrecognised as e:
+    except (Unrecognised, OSError) as e:
         ck.broken.append(dict(name="translation of the fiber lock sources into FiberSync variant flags", detail=str(e)))
         variant = None
     if variant is not None:
@@ -456,145 +634,62 @@ def main(ck):
     pb = ck.cov.get("print_assumptions", {})
     ck.cov["print_assumptions"] = dict(closed=pa.get("closed", 0) + pb.get("closed", 0),
                                        axioms=sorted(set(pa.get("axioms", []) + pb.get("axioms", []))))
-    # ---- implementation
+    # ---- implementation + correspondence
     exe, b = vlib.compile_harness("F", [HARNESS], "c18")
-    all_traces, heads, exhaustive = [], [], True
-    for label, mode, extra, names in scenario_sets(ck.tier, ck.seed):
-        rows, crashes = run_set(exe, mode, extra, names, ck.tier)
-        for rc, txt in crashes:
-            m = re.search(r"CRASH signal=(\d+) choices=([\d,]*)", txt)
-            ck.hits.append(dict(what="harness crashed (rc=%d) %s" % (rc, txt), key="crash",
-                                replay=dict(harness="h_c18", choices=m.group(2) if m else None)))
-        hs = [r for r in rows if "mode" in r]
-        heads += hs
+    tot = dict(evaluations=0, scenarios=0, n_traces=0, n_valid=0, n_nontrivial=0, replays=0, failing=0)
+    fails, bad, samples, vocab = {}, [], [], []
+    exhaustive = True
+    for si, (label, mode, extra, names) in enumerate(scenario_sets(ck.tier, ck.seed)):
+        results = run_set(exe, mode, extra, names, "%s%d_" % (ck.tier[0], si), do_corr=variant is not None)
+        hs = [h for r in results for h in r["heads"]]
         if mode == "dfs":
             exhaustive = exhaustive and len(hs) == len(names) and all(h["exhaustive"] for h in hs)
-        all_traces += [r for r in rows if "trace" in r]
         ck.notes.append("%s: %d scenarios, %d executions" % (label, len(hs), sum(h["executions"] for h in hs)))
-    ck.cov["evaluations"] = sum(h["executions"] for h in heads)
-    ck.cov["scenarios"] = len(heads)
-    ck.cov["exhaustive"] = False  # the exhaustive part is exhaustive (see notes); the random part is not
-    ck.cov["exhaustive_part_complete"] = exhaustive
-    order = ["incompatible", "deadlock", "unjustified", "early", "join", "tls", "twice", "sleepmap", "assert", "other"]
-    fails = [t for t in all_traces if t["fail"]]
-    fails.sort(key=lambda t: (order.index(fail_key(t["scenario"], t["fail"]).split(":")[1]), len(t["choices"])))
-    seen_keys = set()
-    for t in fails:
-        k = fail_key(t["scenario"], t["fail"])
-        if k in seen_keys:
-            continue
-        seen_keys.add(k)
+        tot["evaluations"] += sum(h["executions"] for h in hs)
+        tot["scenarios"] += len(hs)
+        for r in results:
+            for rc, txt in r["crashes"]:
+                m = re.search(r"CRASH signal=(\d+) choices=([\d,]*)", txt)
+                ck.hits.append(dict(what="harness crashed (rc=%d) %s" % (rc, txt), key="crash",
+                                    replay=dict(harness="h_c18", choices=m.group(2) if m else None)))
+            for t in r["fails"]:
+                k = fail_key(t["scenario"], t["fail"])
+                if k not in fails or len(t["choices"]) < len(fails[k]["choices"]):
+                    fails[k] = t
+            tot["failing"] += r.get("failing_executions", 0)
+            for k in ("n_traces", "n_valid", "n_nontrivial", "replays"):
+                tot[k] += r[k]
+            bad += r["bad"]
+            vocab += r["vocab"]
+            samples += r["samples"]
+    for k in sorted(fails, key=lambda k: (ORDER.index(k.split(":")[1]), len(fails[k]["choices"]))):
+        t = fails[k]
         ck.hits.append(dict(what="%s: %s" % (t["scenario"], t["fail"]), key=k,
                             replay=dict(harness="h_c18", scenario=t["scenario"], choices=t["choices"], trace=t["trace"])))
-    ck.cov["failing_executions"] = sum(t["count"] for t in fails)
-    # ---- correspondence
-    if variant is None:
-        return
-    terms, metas = [], []
-    dedupe = {}
-    for t in all_traces:
-        try:
-            mt = map_trace(t["scenario"], t["trace"])
-        except (ValueError, KeyError) as e:
-            ck.gen_obligation("correspondence FiberSync (trace vocabulary)", False, "%s in %s: %s" % (e, t["scenario"], t["trace"]))
-            continue
-        obs_fail = t["fail"]
-        sub = []
-        if mt["events"] and t["scenario"].split("/")[0] in MACHINE:
-            fn = {"Mx": "mx_obs", "Rc": "rc_obs", "Sh": "sh_obs"}[mt["machine"]]
-            sub.append(("lock", "%s source_variant [%s]" % (fn, "; ".join(mt["events"]))))
-        if mt["jn"]:
-            sub.append(("join", "jn_obs 0 [%s]" % "; ".join(mt["jn"])))
-        if mt["tl"]:
-            sub.append(("tls", "tl_obs [%s]" % "; ".join(mt["tl"])))
-        for kind, term in sub:
-            if term in dedupe:
-                dedupe[term][1].append(t)
-                continue
-            dedupe[term] = (len(terms), [t])
-            terms.append(term)
-            metas.append((kind, t, mt))
-    header = ("From Coq Require Import List. Import ListNotations.\n"
-              "From YV Require Import model.FiberSync model.FiberSyncObs gen.FiberSyncSource.\n")
-    res, logs = vlib.coq_eval_cases(header, terms, "c18", shard=250) if terms else ([], [])
-    validated, bad = 0, []
-    ok_traces = set()
-    for (kind, t, mt), r in zip(metas, res):
-        if r is None:
-            bad.append((t, kind, "model evaluation failed"))
-            continue
-        if r[0] == 0:
-            bad.append((t, kind, "model rejects event #%d (%s)" % (r[1], (mt["events"] if kind == "lock" else mt["jn"])[r[1]] if kind != "tls" else "")))
-            continue
-        if kind == "lock":
-            ubf, two, n = r[1], r[2], r[3]
-            got = [tuple(r[4 + 4 * i: 8 + 4 * i]) for i in range(n)]
-            want = mt["results"]
-            # the model logs an operation when it completes inside the library; the harness when the call returns: same order
-            if got != want:
-                bad.append((t, kind, "model predicts results %s, implementation showed %s" % (got, want)))
-                continue
-            impl_ub = "assert it == _sleep_list.end()" in t["fail"]
-            if bool(ubf) != impl_ub and not (ubf and t["fail"]):
-                bad.append((t, kind, "model says sleep-map lookup failed=%d, implementation assert=%s" % (ubf, impl_ub)))
-                continue
-            impl_two = "incompatible holders" in t["fail"]
-            if impl_two and not two:
-                bad.append((t, kind, "implementation had incompatible holders, the model never has"))
-                continue
-        elif kind == "join":
-            n = r[1]
-            got = [tuple(r[2 + 3 * i: 5 + 3 * i]) for i in range(n)]
-            if got != mt["joins"]:
-                bad.append((t, kind, "model predicts joins %s, implementation showed %s" % (got, mt["joins"])))
-                continue
-        else:
-            n = r[1]
-            got = [tuple(r[2 + 3 * i: 5 + 3 * i]) for i in range(n)]
-            if got != mt["reads"]:
-                bad.append((t, kind, "model predicts thread-local reads %s, implementation showed %s" % (got, mt["reads"])))
-                continue
-        validated += 1
-    # a trace is validated when all its projections are
-    bad_ids = set(id(t) for t, _, _ in bad)
-    n_valid, nontriv = 0, set()
-    for term, (i, ts) in dedupe.items():
-        pass
-    per_trace_bad = set()
-    for (kind, t, mt), r in zip(metas, res):
-        if id(t) in bad_ids:
-            for tt in dedupe[terms[metas.index((kind, t, mt))]][1] if False else []:
-                per_trace_bad.add(id(tt))
-    for term, (i, ts) in dedupe.items():
-        kind, t0, _ = metas[i]
-        if id(t0) in bad_ids:
-            for tt in ts:
-                per_trace_bad.add(id(tt))
-    for t in all_traces:
-        if id(t) not in per_trace_bad:
-            n_valid += 1
-            if nontrivial(t["trace"]):
-                nontriv.add(t["scenario"] + "|" + t["trace"])
-    ck.cov["traces_validated_against_impl"] = n_valid
-    ck.cov["distinct_traces"] = len(all_traces)
-    ck.cov["model_replays"] = len(terms)
-    ck.cov["distinct_nontrivial"] = len(nontriv)
+    ck.cov["evaluations"] = tot["evaluations"]
+    ck.cov["scenarios"] = tot["scenarios"]
+    ck.cov["exhaustive"] = False  # part 1 is exhaustive (exhaustive_part_complete), the random part is not
+    ck.cov["exhaustive_part_complete"] = exhaustive
+    ck.cov["failing_executions"] = tot["failing"]
+    ck.cov["traces_validated_against_impl"] = tot["n_valid"]
+    ck.cov["distinct_traces"] = tot["n_traces"]
+    ck.cov["model_replays"] = tot["replays"]
+    ck.cov["distinct_nontrivial"] = tot["n_nontrivial"]
     ck.cov["rule"] = ("scenario = one real yaclib_std object + k fibers each running a well-formed program (blocks of acquire/"
                       "body/release, or wait/notify programs); part 1: exhaustive DFS over every scheduler decision for 2 fibers "
                       "(and 3 in the thorough tier); part 2: seeded random schedules for 3-4 fibers; traces are distinct by their "
                       "full token sequence (resume markers with virtual time, yields, notify picks, calls, results); non-trivial = "
                       "some fiber blocked inside an operation while another ran, or a notify_one chose among >= 2 parked fibers; "
                       "every trace is replayed through the FiberSync machine of its class with source_variant (plus the join "
-                      "machine and, for tls scenarios, the thread-local machine) and must be accepted with equal results")
-    samp = [t for t in all_traces if nontrivial(t["trace"])][:3] + [t for t in all_traces if t["scenario"].startswith("cv/")][:1]
-    ck.cov["samples"] = [dict(scenario=t["scenario"], trace=t["trace"], choices=t["choices"], executions=t["count"], fail=t["fail"])
-                         for t in samp]
-    for t, kind, why in bad[:8]:
-        ck.broken.append(dict(name="correspondence FiberSync (%s machine) vs implementation on %s" % (kind, t["scenario"]),
-                              detail="%s\ntrace: %s\nchoices: %s" % (why, t["trace"], t["choices"])))
-    if len(bad) > 8:
-        ck.notes.append("%d correspondence mismatches in total" % len(bad))
-    if not all_traces:
+                      "machine and, for tls scenarios, the thread-local machine) and must be accepted with equal results; "
+                      "distinct_nontrivial counts validated non-trivial traces")
+    ck.cov["samples"] = samples[:4]
+    for v in vocab[:3]:
+        ck.gen_obligation("correspondence FiberSync (trace vocabulary)", False, v)
+    for b_ in bad[:8]:
+        ck.broken.append(dict(name="correspondence FiberSync (%s machine) vs implementation on %s" % (b_["kind"], b_["scenario"]),
+                              detail="%s\ntrace: %s\nchoices: %s" % (b_["why"], b_["trace"], b_["choices"])))
+    if variant is not None and tot["n_traces"] == 0:
         ck.broken.append(dict(name="correspondence FiberSync vs implementation", detail="harness produced no traces"))
 
 
